@@ -94,7 +94,11 @@ func buildWorld(sc *Scenario) *world {
 				up[len(up)-1] += "; exit 1"
 			}
 		}
-		w.ctxs[c.Name] = runner.NewExecutionContext(nil, "", variables.NewVariables(), up, cmds(c.Down), cmds(c.Before), cmds(c.After))
+		down := cmds(c.Down)
+		if c.DownFail && len(down) > 0 {
+			down[len(down)-1] += "; exit 1"
+		}
+		w.ctxs[c.Name] = runner.NewExecutionContext(nil, "", variables.NewVariables(), up, down, cmds(c.Before), cmds(c.After))
 	}
 	if sc.Unused {
 		w.ctxs["unused"] = runner.NewExecutionContext(nil, "", variables.NewVariables(), cmds([]string{"up:unused"}), cmds([]string{"down:unused"}), nil, nil)
